@@ -58,12 +58,12 @@ for pid, title in (("C02", "INFEASIBLE only with an exact Farkas certificate"),
     PLANS[pid]["title"] = title
 PLANS["C03"]["quick"] = PLANS["C01"]["quick"] + [lp("S0mk-prod-default-ladder", "prod", "S0mk", "default", weight=2)]
 PLANS["C03"]["thorough"] = PLANS["C01"]["thorough"] + [lp("S0c-prod-default-ladder", "prod", "S0c", "default", weight=6)]
-PLANS["C04"]["quick"] = PLANS["C01"]["quick"] + [lp("S0q1-kdir", "prodl1", "S0q1", "kdir", weight=2, crash_props=["C17", "C04"]), lp("Sbq-kdir", "prodl1", "Sbq", "kdir", weight=2, crash_props=["C17", "C04"]), lp("T-kdir", "prod", "T", "kdir", weight=2, crash_props=["C17", "C04"], opts={"fam": "T", "cfg": "kdir", "tscale": 30}),
+PLANS["C04"]["quick"] = PLANS["C01"]["quick"] + [lp("S0q1-kdir", "prodl1", "S0q1", "kdir", weight=2, crash_props=["C17", "C04"]), lp("Sbq-kdir", "prodl1", "Sbq", "kdir", weight=2, crash_props=["C17", "C04"]), lp("CP-kpr", "prod", "CP", "kpr", weight=2, crash_props=["C17", "C04"]), lp("T-kdir", "prod", "T", "kdir", weight=2, crash_props=["C17", "C04"], opts={"fam": "T", "cfg": "kdir", "tscale": 30}),
                                                 fam("warm-allbases-S0q1", "prodl1", "basis", {"fam": "S0q1", "files": 0, "verify": 0, "warm": 1}, weight=2, crash_props=["C17", "C04"]),
                                                 fam("warm-allbases-S1q", "prodl1", "basis", {"fam": "S1q", "files": 0, "verify": 0, "warm": 1}, weight=2, crash_props=["C17", "C04"])]
 PLANS["C04"]["thorough"] = PLANS["C01"]["thorough"] + [lp("S0c-kdir", "prodl1", "S0c", "kdir", weight=4, crash_props=["C17", "C04"]), lp("T-kdir", "prod", "T", "kdir", weight=2, crash_props=["C17", "C04"], opts={"fam": "T", "cfg": "kdir", "tscale": 30}),
                                                        fam("warm-allbases-S0c", "prodl1", "basis", {"fam": "S0c", "files": 0, "verify": 0, "warm": 1}, weight=8, crash_props=["C17", "C04"])]
-PLANS["C04"]["rule"] = PLANS["C01"]["rule"] + "; family 'basis' with warm=1: QSexact_solver (primal and dual start) warm-started from EVERY valid basis of every LP (singular bases included) must return the reference truth; configuration set kdir = full product {mpq_QSopt_primal, mpq_QSopt_dual} x scaling {on, off} x warm start {none, 3 bases} (the direct rational simplex sub-lattice, 3 simultaneous deviations)"
+PLANS["C04"]["rule"] = PLANS["C01"]["rule"] + "; family 'basis' with warm=1: QSexact_solver (primal and dual start) warm-started from EVERY valid basis of every LP (singular bases included) must return the reference truth; configuration set kdir = full product {mpq_QSopt_primal, mpq_QSopt_dual} x scaling {on, off} x warm start {none, 3 bases} (the direct rational simplex sub-lattice, 3 simultaneous deviations); configuration set kpr = full product {mpq_QSopt_primal, mpq_QSopt_dual} x 4 primal pricing rules x 4 dual pricing rules x scaling {on, off} on family CP, a deterministic catalogue of 240 covering/packing LPs with 3..5 rows and 4..8 columns (answers compared with the default configuration's and, where Fourier-Motzkin finishes, with the truth)"
 PLANS["C04"]["evidence"] = {"states": ["instances"], "transitions": ["executions"], "nontrivial": ["instances_nontrivial"]}
 
 
